@@ -247,13 +247,21 @@ class Builder:
         return out, None
 
     # ---- one build
-    def headers_for(self, lang, a):
+    def headers_for(self, lang, a, dir_a):
+        """every generated type header of the fixture namespace (found, not assumed), minus those that cannot build with `a` for
+        reasons of their own: float users without float support, unions of composites without a default-constructible allocator"""
         ea = pyvec(self.m.expand(lang, a))
-        hs = list(H_BASE)
-        if lang == "c" or ea.get("allocator_is_default_constructible", True) is not False:
-            hs += H_DEFCTOR
-        if not ea.get("omit_float_serialization_support"):
-            hs += H_FLOAT
+        skip = []
+        if lang == "cpp" and ea.get("allocator_is_default_constructible", True) is False:
+            skip += [pathlib.PurePosixPath(h).name for h in H_DEFCTOR]
+        if ea.get("omit_float_serialization_support"):
+            skip += [pathlib.PurePosixPath(h).name for h in H_FLOAT]
+        hs = []
+        for f in sorted((dir_a / "vns").rglob("*")):
+            if f.is_file() and f.suffix in (".h", ".hpp") and not any(f.name.startswith(x + "_") for x in skip):
+                hs.append(str(pathlib.PurePosixPath("vns") / f.relative_to(dir_a / "vns").as_posix()))
+        if len(hs) < len(H_BASE):
+            raise MachineryFailure("generated type headers not found under %s" % dir_a)
         return hs
 
     def compile_cmd(self, lang, a, mix, tu, compiler):
@@ -268,10 +276,12 @@ class Builder:
         """translation unit including the type headers of dir_a and (through them) the support header of dir_b"""
         mix = self.root / "mix" / ("m%06d" % next(self.nmix))
         mix.mkdir(parents=True)
-        os.symlink(dir_a / "vns", mix / "vns")
-        os.symlink(dir_b / "nunavut", mix / "nunavut")
+        os.symlink(dir_a / "vns", mix / "vns")           # the generated types of a
+        for e in sorted(dir_b.iterdir()):                 # everything else (the support library) from b
+            if e.name != "vns":
+                os.symlink(e, mix / e.name)
         ext = "h" if lang == "c" else "hpp"
-        hs = ["vns/%s_1_0.%s" % (h, ext) for h in self.headers_for(lang, a)]
+        hs = self.headers_for(lang, a, dir_a)
         tu = mix / ("tu." + ("c" if lang == "c" else "cpp"))
         tu.write_text("#include <assert.h>\n" + "".join('#include "%s"\n' % h for h in hs) + "int main(void) { return 0; }\n")
         cmd = self.compile_cmd(lang, a, mix, tu, compiler)
@@ -281,7 +291,7 @@ class Builder:
             raise MachineryFailure("compiler timed out: %s" % " ".join(cmd))
         obs = self.parse(lang, mix, hs, p.returncode, p.stderr)
         obs["defs"] = self.scrape_defs(lang, dir_b)
-        obs["asrt"] = self.scrape_asserts(lang, dir_a / "vns" / ("Empty_1_0." + ext))
+        obs["asrt"] = self.scrape_asserts(lang, dir_a / hs[0])
         obs["cmd"] = " ".join(cmd[:3])
         shutil.rmtree(mix, ignore_errors=True)
         return obs
@@ -301,7 +311,7 @@ class Builder:
                 rel = str(f.relative_to(mix))
             except ValueError:
                 rel = f.name
-            role = "type-header" if rel.startswith("vns/") else ("support-header" if rel.startswith("nunavut/") else "other")
+            role = "type-header" if rel.startswith("vns/") else ("support-header" if (mix / rel).exists() and "/" in rel else "other")
             if m.group("kind") == "fatal error":
                 fatal = True
             if first_error is None:
@@ -335,14 +345,18 @@ class Builder:
             else:
                 known = False
         return {"rc": rc, "msg": any_named, "headers": hs, "fired_headers": fired_headers, "fired": sorted(fired), "fired_known": known,
-                "first_error": first_error, "fatal": fatal, "stderr_head": "\n".join(lines[:6])[:900]}
+                "first_error": first_error, "fatal": fatal,
+                "stderr_head": "\n".join([x for x in lines if _RE_ERR.match(x)][:3])[:900].replace(str(mix), "<tu>")}
 
     def scrape_defs(self, lang, d):
         res = {}
-        try:
-            txt = (d / "nunavut" / "support" / ("serialization." + ("h" if lang == "c" else "hpp"))).read_text()
-        except OSError:
-            return res
+        txt = ""
+        for f in sorted(d.rglob("*")):
+            if f.is_file() and f.suffix in (".h", ".hpp") and "vns" not in f.relative_to(d).parts[:1]:
+                try:
+                    txt += f.read_text(errors="replace")
+                except OSError:
+                    pass
         if lang == "c":
             for m in re.finditer(r"^#define NUNAVUT_SUPPORT_LANGUAGE_OPTION_(\w+)\s+(\d+)\s*$", txt, re.M):
                 res[m.group(1).lower()] = int(m.group(2))
